@@ -178,6 +178,38 @@ func ctxHelpers(p *Prog) map[*ssa.Function]int {
 	return out
 }
 
+// ctxHelpersDeep: ctxHelpers plus the wrappers that hand their own key parameter on to one (getCtxUint -> getCtxValue[T]).
+func ctxHelpersDeep(p *Prog) map[*ssa.Function]int {
+	out := ctxHelpers(p)
+	for changed := true; changed; {
+		changed = false
+		for _, f := range p.ModFns {
+			if _, ok := out[f]; ok {
+				continue
+			}
+			eachInstr(f, func(i ssa.Instruction) {
+				c := callOf(i)
+				if c == nil || c.StaticCallee() == nil {
+					return
+				}
+				idx, ok := out[c.StaticCallee()]
+				if !ok || idx >= len(c.Args) {
+					return
+				}
+				if pr, ok := c.Args[idx].(*ssa.Parameter); ok {
+					for k, q := range f.Params {
+						if q == pr {
+							out[f] = k
+							changed = true
+						}
+					}
+				}
+			})
+		}
+	}
+	return out
+}
+
 // assertsOn collects the types asserted on the value produced by lookup l (through extract/phi).
 func assertsOn(v ssa.Value, seen map[ssa.Value]bool, out *[]*ssa.TypeAssert) {
 	if seen[v] {
